@@ -348,3 +348,21 @@ func LenOf(v ssa.Value) ssa.Value {
 func PathHasSuffix(path, rel string) bool {
 	return path == rel || len(path) > len(rel) && path[len(path)-len(rel)-1] == '/' && path[len(path)-len(rel):] == rel
 }
+
+// ArrayOf returns the array type underlying t, or nil.
+func ArrayOf(t types.Type) *types.Array {
+	if t == nil {
+		return nil
+	}
+	a, _ := t.Underlying().(*types.Array)
+	return a
+}
+
+// SliceOf returns the slice type underlying t, or nil.
+func SliceOf(t types.Type) *types.Slice {
+	if t == nil {
+		return nil
+	}
+	s, _ := t.Underlying().(*types.Slice)
+	return s
+}
